@@ -261,7 +261,8 @@ def _fit(ct, tier, seed):
             zo = 6.0 * np.sign(x) + 3.0 * (rr > 0.6) + z
             c1 = np.array(zr.ZernikeFit(x, y, zo, fam, N).coeffs)
             c2 = np.array(zr.ZernikeFit(x, y, 2.5 * zo, fam, N).coeffs)
-            ok = np.allclose(c2, 2.5 * c1, rtol=1e-5, atol=1e-6)
+            # the solver stops on its own tolerances (ftol = xtol = 1e-8 on a cost of order 1e3): agreement to 1e-4 of the largest coefficient
+            ok = np.allclose(c2, 2.5 * c1, rtol=1e-4, atol=1e-4 * max(1.0, float(np.max(np.abs(c1)))))
             _clause(clauses, 'C10.fit.linear_in_the_data', ok, '%s N=%d' % (fam, N), backend='runtime')
             if not ok:
                 fails.append({'clause': 'C10.fit.linear_in_the_data', 'draws': {'family': fam, 'N': N, 'seed': seed},
